@@ -36,7 +36,8 @@ PO, PK, VP, KO, VK = 'po', 'pk', 'vp', 'ko', 'vk'
 KIND_OF = {PO: inspect.Parameter.POSITIONAL_ONLY, PK: inspect.Parameter.POSITIONAL_OR_KEYWORD,
            VP: inspect.Parameter.VAR_POSITIONAL, KO: inspect.Parameter.KEYWORD_ONLY,
            VK: inspect.Parameter.VAR_KEYWORD}
-FLAVOURS = ['function', 'method', 'classmethod', 'staticmethod', 'init', 'wraps']
+FLAVOURS = ['function', 'method', 'classmethod', 'staticmethod', 'init', 'wraps',
+            'wraps_method', 'wraps_classmethod', 'plainwrap_method']
 NAMES = ['alpha', 'beta', 'gamma', 'delta', 'eps', 'zeta']
 DOCS = [None, '"Build the target."', "'bisect helper'", '"""Buffer of bytes."""', '"Raw looking r text"', "'u is for unicode'",
         '"""One line."""', "'''Single quotes.'''", '"one-liner"',
@@ -67,8 +68,9 @@ def plan(tier, seed):
     max_exh = 3 if tier == 'quick' else 4
     sh = shapes(max_exh)
     i = 0
-    for s in sh:
-        for fl in FLAVOURS:
+    for si, s in enumerate(sh):
+        # the six basic flavours for every shape, the three wrapper-around-a-method ones in turn
+        for fl in FLAVOURS[:6] + [FLAVOURS[6 + si % 3]]:
             rnd = random.Random('%s/C11/%d' % (seed, i))
             specs.append({'id': 'c11-%d' % i, 'shape': s, 'flavour': fl,
                           'plen': 2 if tier == 'quick' else 3,
@@ -130,7 +132,8 @@ def render_params(shape, rnd, first=None):
 def build_definition(spec):
     rnd = random.Random(spec['variant'])
     fl = spec['flavour']
-    first = {'method': 'self', 'classmethod': 'cls', 'init': 'self'}.get(fl)
+    first = {'method': 'self', 'classmethod': 'cls', 'init': 'self', 'wraps_method': 'self',
+             'wraps_classmethod': 'cls', 'plainwrap_method': 'self'}.get(fl)
     params, names = render_params(spec['shape'], rnd, first)
     doc = rnd.choice(DOCS)
     ret = rnd.choice(['', '', ' -> int', ' -> None']) if fl != 'init' else ''
@@ -144,6 +147,19 @@ def build_definition(spec):
                      '        return fn(*args, **kwargs)\n    return wrapper\n\n')
         lines.append('@deco\ndef target(%s)%s:\n%s' % (params, ret, body))
         call = 'target'
+    elif fl in ('wraps_method', 'wraps_classmethod', 'plainwrap_method'):
+        # a pure pass-through wrapper around a method: Python binds self/cls through *args
+        wr = '    @functools.wraps(fn)\n' if fl != 'plainwrap_method' else ''
+        lines.append('def deco(fn):\n%s    def wrapper(*args, **kwargs):\n'
+                     '        return fn(*args, **kwargs)\n    return wrapper\n\n' % wr)
+        ibody = ''.join('    ' + l if l.strip() else l for l in body.splitlines(keepends=True))
+        cm = '    @classmethod\n' if fl == 'wraps_classmethod' else ''
+        lines.append('class Target:\n%s    @deco\n    def meth(%s)%s:\n%s' % (cm, params, ret, ibody))
+        if fl == 'wraps_classmethod':
+            call = 'Target.meth'
+        else:
+            lines.append('inst = Target()\n')
+            call = 'inst.meth'
     else:
         deco = {'classmethod': '    @classmethod\n', 'staticmethod': '    @staticmethod\n'}.get(fl, '')
         mname = '__init__' if fl == 'init' else 'meth'
@@ -282,7 +298,14 @@ def run(spec):
     try:
         exec(compile(src, '<c11>', 'exec'), ns)
         obj = eval(call, ns)
-        real = inspect.signature(obj)
+        if spec['flavour'] == 'plainwrap_method':
+            # the wrapper does not advertise what it wraps: the oracle is the wrapped method's
+            # own signature with self bound (exactly the calls that run without TypeError)
+            wrapped = [c.cell_contents for c in obj.__func__.__closure__ if callable(c.cell_contents)][0]
+            real = inspect.signature(wrapped.__get__(ns['inst'], ns['Target']))
+            spec = dict(spec, _def_obj=wrapped)
+        else:
+            real = inspect.signature(obj)
     except Exception as e:
         res['inconclusive'] = ['generated definition does not execute: %s' % type(e).__name__]
         res['harness_error'] = repr(e) + '\n' + src
@@ -442,9 +465,18 @@ def _check_docstrings(rec, sig, script, obj, spec, base_lines, call, w):
         ok, raw = apimon.call(rec, 'docstring', d.docstring, raw=True, witness=w)
         if not ok:
             continue
+        # the def statement goto lands on created the wrapped function; the callable at the call
+        # site is what the decorator returned
+        expected = inspect.getdoc(spec['_def_obj'] if d is not sig and '_def_obj' in spec else obj)
         rec.ev('c11:docstring_checked')
+        # listed finding: functools.wraps applied to a method - the name and docstring copied by
+        # functools.wraps are lost once the method is bound (the wrapper's own are reported)
+        lost = ''
+        if spec['flavour'] in ('wraps_method', 'wraps_classmethod') and expected and d is sig:
+            lost = ':functools_wraps_docstring_lost_on_bound_method'
         if raw != (expected or ''):
-            rec.violate('c11:docstring_raw', 'docstring(raw=True) %r != inspect.getdoc %r'
+            rec.violate('c11:docstring_raw' + (lost if raw == '' else ''),
+                        'docstring(raw=True) %r != inspect.getdoc %r'
                         % (raw, expected), on=type(d).__name__, **w)
         ok, full = apimon.call(rec, 'docstring', d.docstring, witness=w)
         if not ok:
@@ -452,7 +484,8 @@ def _check_docstrings(rec, sig, script, obj, spec, base_lines, call, w):
         rec.ev('c11:docstring_form_checked')
         if expected:
             if not full.endswith('\n\n' + expected) and full != expected:
-                rec.violate('c11:docstring_form', 'docstring() %r does not end with blank line + doc %r'
+                rec.violate('c11:docstring_form' + (lost if raw == '' else ''),
+                            'docstring() %r does not end with blank line + doc %r'
                             % (full, expected), on=type(d).__name__, **w)
                 continue
             head = full[:-len(expected)].rstrip('\n')
